@@ -126,6 +126,10 @@ def verdict (p : Program) : String :=
     | .ok items => "m " ++ lexText items
     | .error .panic => "any"
     | .error .fuel => "any"
+    -- where `resolve_agrees` is silent (`unconstrained`): assignment to a name that is not a variable,
+    -- a filter reaching for the variables of a function around it
+    | .error (.invalidLvalue _) => "any"
+    | .error (.filterCapture _) => "any"
     | .error e => "eq " ++ errText e
 
 def run (line : String) : String :=
